@@ -63,6 +63,25 @@ func showAssocs(as []col.AssociationLike[int, int]) string {
 	return fmt.Sprint(ps)
 }
 
+// showAssocColl prints an associative collection through every view it has: the array view, the iteration,
+// the keys and the values looked up for them, and (for a catalog) what Extract makes of its own keys -- a write
+// through a returned sequence may reach any of them
+func showAssocColl(c assocLike[int, int]) string {
+	keys := c.GetKeys()
+	ks := append([]int{}, keys.AsArray()...)
+	vals := fmt.Sprint(c.GetValues(keys).AsArray())
+	walked := showAssocs(walk(c.GetIterator()))
+	out := showAssocs(c.AsArray()) + " iteration " + walked
+	if cat, ok := c.(col.CatalogLike[int, int]); ok {
+		out += fmt.Sprint(" keys ", ks, " values ", vals)
+		out += " extract " + showAssocs(col.Catalog[int, int](lib.Notation()).Extract(cat, keys).AsArray())
+	} else {
+		sort.Ints(ks)
+		out += fmt.Sprint(" keys ", ks, " size ", c.GetSize())
+	}
+	return out
+}
+
 func showMap(m map[int]int) string {
 	ps := []string{}
 	for k, v := range m {
@@ -469,12 +488,12 @@ func init() {
 			aliasEntry{kind + ".MakeFromArray/mutate-argument", func(size, pos int) (string, string, bool) {
 				arg := assocsN(size)
 				c := fromArray(arg)
-				before := showAssocs(c.AsArray())
+				before := showAssocColl(c)
 				if size == 0 {
 					return before, before, false
 				}
 				arg[pos%size] = col.Association[int, int](n).Make(77, 7)
-				return before, showAssocs(c.AsArray()), true
+				return before, showAssocColl(c), true
 			}},
 			aliasEntry{kind + ".MakeFromArray/mutate-collection", func(size, pos int) (string, string, bool) {
 				arg := assocsN(size)
@@ -489,11 +508,11 @@ func init() {
 			aliasEntry{kind + ".MakeFromMap/mutate-argument", func(size, pos int) (string, string, bool) {
 				arg := mapN(size)
 				c := fromMap(arg)
-				before := showAssocs(c.AsArray())
+				before := showAssocColl(c)
 				arg[pos+1] = -1
 				arg[99] = -2
 				delete(arg, pos+2)
-				return before, showAssocs(c.AsArray()), true
+				return before, showAssocColl(c), true
 			}},
 			aliasEntry{kind + ".MakeFromMap/mutate-collection", func(size, pos int) (string, string, bool) {
 				arg := mapN(size)
@@ -506,10 +525,10 @@ func init() {
 			aliasEntry{kind + ".MakeFromSequence/mutate-argument", func(size, pos int) (string, string, bool) {
 				arg := col.List[col.AssociationLike[int, int]](n).MakeFromArray(assocsN(size))
 				c := fromSeq(arg)
-				before := showAssocs(c.AsArray())
+				before := showAssocColl(c)
 				arg.AppendValue(col.Association[int, int](n).Make(77, 7))
 				arg.RemoveValue(1)
-				return before, showAssocs(c.AsArray()), true
+				return before, showAssocColl(c), true
 			}},
 			aliasEntry{kind + ".MakeFromSequence/mutate-collection", func(size, pos int) (string, string, bool) {
 				arg := col.List[col.AssociationLike[int, int]](n).MakeFromArray(assocsN(size))
@@ -525,12 +544,12 @@ func init() {
 			aliasEntry{kind + ".AsArray/mutate-result", func(size, pos int) (string, string, bool) {
 				c := fromMap(mapN(size))
 				res := c.AsArray()
-				before := showAssocs(c.AsArray())
+				before := showAssocColl(c)
 				if len(res) == 0 {
 					return before, before, false
 				}
 				res[pos%len(res)] = col.Association[int, int](n).Make(77, 7)
-				return before, showAssocs(c.AsArray()), true
+				return before, showAssocColl(c), true
 			}},
 			aliasEntry{kind + ".AsArray/mutate-collection", func(size, pos int) (string, string, bool) {
 				c := fromMap(mapN(size))
@@ -552,9 +571,9 @@ func init() {
 			aliasEntry{kind + ".GetKeys/mutate-result", func(size, pos int) (string, string, bool) {
 				c := fromMap(mapN(size))
 				res := c.GetKeys()
-				before := showAssocs(c.AsArray())
+				before := showAssocColl(c)
 				w := mutateSeqResult[int](res, pos, 555)
-				return before, showAssocs(c.AsArray()), w
+				return before, showAssocColl(c), w
 			}},
 			aliasEntry{kind + ".GetKeys/mutate-collection", func(size, pos int) (string, string, bool) {
 				c := fromMap(mapN(size))
@@ -568,9 +587,9 @@ func init() {
 			aliasEntry{kind + ".GetValues/mutate-result", func(size, pos int) (string, string, bool) {
 				c := fromMap(mapN(size))
 				res := c.GetValues(c.GetKeys())
-				before := showAssocs(c.AsArray())
+				before := showAssocColl(c)
 				w := mutateSeqResult[int](res, pos, 555)
-				return before, showAssocs(c.AsArray()), w
+				return before, showAssocColl(c), w
 			}},
 			aliasEntry{kind + ".GetValues/mutate-collection", func(size, pos int) (string, string, bool) {
 				c := fromMap(mapN(size))
@@ -586,9 +605,9 @@ func init() {
 			aliasEntry{kind + ".RemoveValues/mutate-result", func(size, pos int) (string, string, bool) {
 				c := fromMap(mapN(size + 1))
 				res := c.RemoveValues(col.List[int](n).MakeFromArray(intsDiv10(intsN(size))))
-				before := showAssocs(c.AsArray())
+				before := showAssocColl(c)
 				w := mutateSeqResult[int](res, pos, 555)
-				return before, showAssocs(c.AsArray()), w
+				return before, showAssocColl(c), w
 			}},
 		)
 	}
